@@ -77,6 +77,7 @@ fn contract(n: usize, nstates: usize, k: usize) -> bool {
             let t = &tr[i];
             if !(t.0 < nstates && t.2 < nstates && t.0 < t.2) { return false; }
             if !(t.3 >= -1 && t.3 < 8) { return false; }
+            if !(t.1 == 0 || t.1 >= 5) { return false; }
             if i + 1 < n {
                 let u = &tr[i + 1];
                 if !(t.0 < u.0 || (t.0 == u.0 && t.1 < u.1)) { return false; }
@@ -120,6 +121,13 @@ fn c08_eval_symbolic_table() {
     // prod0 valid iff no transitions (single-production non-terminal)
     kani::assume((prod0 > INVALID_PROD) == (n == 0));
     let la: [TerminalIndex; LA_MAX] = kani::any();
+    // stream contract: skip tokens (1..=4) are never delivered as lookahead; EOI only as padding
+    let mut q = 0;
+    while q < LA_MAX {
+        kani::assume(la[q] == 0 || la[q] >= 5);
+        if q + 1 < LA_MAX { kani::assume(la[q] != 0 || la[q + 1] == 0); }
+        q += 1;
+    }
     unsafe { LA = la; }
     let trans: &'static [Trans] = unsafe { &TRANS[..n] };
     let dfa = LookaheadDFA::new(prod0, trans, k);
